@@ -373,3 +373,52 @@ def structure_key(beh):
     """Identifies the structure (not the values) of a behaviour - used to count distinct cases."""
     return (tuple(beh['ids']), beh['ed'], beh['cmp'], beh['nsub'], beh.get('mversion'),
             tuple(tuple(e['lab'] for e in s) for s in beh['subsets']))
+
+
+# ---------------------------------------------------------------------------------------------
+# one coder object, several table versions: whatever a Decoder / Encoder (or the process) keeps from one message
+# must not reach the next
+
+XV_TEMPLATES = [[14001, 12001], [316020],
+                [12001, 14001, 223000, 101002, 31031, 101000, 31001, 223255],
+                [14001, 224000, 236000, 101001, 31031, 8023, 224255, 12001],
+                [102002, 14001, 2001], [201130, 14001, 201000, 14001]]
+XV_VERSIONS = (13, 33, 19)      # 014001 is 12 bits in version 13 and 17 from 19 on; 316020 starts with 001023 / 001033
+
+
+def _shared_pass(args):
+    mode, behs = args
+    from pybufrkit.decoder import Decoder
+    from pybufrkit.encoder import Encoder
+    dec, enc = Decoder(), Encoder()
+    out = []
+    for beh in behs:
+        bad = None
+        if 'decode' in mode:
+            bad, _ = replay_decode(beh, decoder=dec)
+        if bad is None and 'encode' in mode and not beh['cmp']:
+            bad, _ = replay_encode(beh, encoder=enc, canonical=True)
+        out.append(bad)
+    return out
+
+
+def cross_version_pass(run, wd, mode, seed=0):
+    """The same templates under several master table versions (elements and sequences whose entries differ between
+    them), generated by the specification per version and then replayed ALTERNATELY through one Decoder / Encoder
+    object in one process."""
+    import multiprocessing as mp
+    per = []
+    for mv in XV_VERSIONS:
+        res = gen_run(wd, 'MC_xv_%d' % mv, XV_TEMPLATES, mversion=mv, subset_counts=(1, 2), seeds=((seed + mv) % 5,), fmax=1, slack=0)
+        run.add_tlc(res, 'FM94 produce, version-dependent templates under master table version %d' % mv)
+        per.append([b for b in res.iter_emitted() if not b['err']])
+    n = min(len(p) for p in per)
+    mixed = [p[k] for k in range(n) for p in per]           # v13, v33, v19, v13, ...
+    with mp.get_context('fork').Pool(1, initializer=_init_worker) as pool:
+        out = pool.map(_shared_pass, [(mode, mixed)])[0]
+    for beh, bad in zip(mixed, out):
+        run.traces += 1
+        if bad:
+            run.violation(('shared-coder',) + tuple(bad[0]), 'one coder object, alternating table versions: ' + bad[1],
+                          {'kind': 'behaviour', 'behaviour': beh, 'note': 'manifests only after a message of another table version in the same process'})
+    run.notes['cross_version_behaviours_through_one_coder'] = len(mixed)
